@@ -166,6 +166,11 @@ def gen_desc(rng, tier, pool=None, integer=False):
         if d["sites"] or rng.random() < 0.1:
             break
     if rng.random() < 0.3:
+        # application-defined flag bits: only bit 0 decides whether a node is a sample
+        for nd in d["nodes"]:
+            if rng.random() < 0.5:
+                nd[0] |= rng.choice(EXTRA_FLAGS)
+    if rng.random() < 0.3:
         # dead branches: leaves (and sometimes whole sample-free subtrees) that are not samples
         for nd in d["nodes"]:
             if nd[0] & 1 and rng.random() < 0.4:
@@ -174,6 +179,66 @@ def gen_desc(rng, tier, pool=None, integer=False):
 
 
 MANY = tuple("a%d" % i for i in range(160)) + ("",)
+
+
+def mk_samples(samples, form):
+    """the same node list in different array layouts (result must not depend on the layout)"""
+    import numpy as np
+    if samples is None or not form:
+        return samples
+    a = np.array(samples, dtype=np.int32)
+    if form == 1:
+        return a                                      # contiguous, already int32
+    if form == 2:
+        b = np.full(2 * len(a) + 1, -7, dtype=np.int32)
+        b[::2][:len(a)] = a
+        return b[::2][:len(a)]                        # strided view
+    if form == 3:
+        return np.array(list(samples)[::-1], dtype=np.int32)[::-1]    # reversed view
+    if form == 4:
+        m = np.full((len(a), 3), -7, dtype=np.int32)
+        m[:, 1] = a
+        return m[:, 1]                                # column of a 2-D array
+    if form == 5:
+        return np.array(samples, dtype=np.int64)
+    if form == 6:
+        return tuple(samples)
+    return np.array(samples, dtype=np.uint32) if all(x >= 0 for x in samples) else a
+
+
+def mk_alleles(alleles, form):
+    if alleles is None:
+        return None
+    return list(alleles) if form == "list" else tuple(alleles)
+
+
+EXTRA_FLAGS = [1 << 16, 1 << 19, 2, (1 << 31), 6]
+
+
+def gen_wide(rng, kind):
+    """integer-width cases: >= 256 children of one node, >= 256 mutations / alleles at a site"""
+    pool = tuple("b%d" % i for i in range(700))
+    if kind == "star":
+        k = rng.choice([257, 300])
+        nodes = [[1 if rng.random() < 0.9 else 0, 0, NULL, NULL, ""] for _ in range(k)] + [[0, 1, NULL, NULL, ""]]
+        edges = [[0, 1, k, c, ""] for c in range(k) if rng.random() < 0.98]
+        muts, last = [], {}
+        ms = [k] * rng.randrange(0, 3) + sorted(rng.sample(range(k), 8))
+        for j, u in enumerate(ms):
+            mp = last.get(u, last.get(k, NULL) if (u != k and any(e[3] == u for e in edges)) else NULL)
+            muts.append([0, u, pool[j], mp, None, ""])
+            last[u] = j
+        return {"L": 1, "scale": 1, "nodes": nodes, "edges": edges, "sites": [[0, "A", ""]],
+                "mutations": muts, "individuals": [], "populations": [], "migrations": []}
+    while True:
+        d = gen_ts.random_desc(rng, max_nodes=60, max_L=1, max_sites=1, max_muts=700,
+                               metadata=False, individuals=False, populations=False,
+                               p_internal_sample=0.1, p_gap=0.0, p_root=0.1, alleles=pool, scale=1)
+        if len(d["mutations"]) >= 300:
+            break
+    for j, m in enumerate(d["mutations"]):
+        m[2] = pool[j % len(pool)]
+    return d
 
 
 def gen_many_alleles(rng):
@@ -319,8 +384,12 @@ class Decode(Family):
     def generate(self, rng, tier):
         n = 2000 if tier == "quick" else 20000
         many = 4 if tier == "quick" else 40
+        wide = ["star", "muts"] if tier == "quick" else ["star", "muts"] * 4
         for i in range(n):
-            desc = gen_many_alleles(rng) if i < many else gen_desc(rng, tier)
+            if i < len(wide):
+                desc = gen_wide(rng, wide[i])
+            else:
+                desc = gen_many_alleles(rng) if i < many + len(wide) else gen_desc(rng, tier)
             ns = len(desc["sites"])
             samples = gen_samples(rng, desc)
             iam = rng.choice([True, True, False, None])
@@ -335,9 +404,13 @@ class Decode(Family):
                     order = list(range(ns))[::-1]
                 else:
                     order = [rng.randrange(ns) for _ in range(rng.randrange(1, 2 * ns + 2))]
+            if order and rng.random() < 0.15:
+                # error then reuse: a decode of a site that does not exist, then valid decodes
+                order.insert(rng.randrange(len(order)), rng.choice([-1, ns, ns + 7, -3]))
             mds = rng.choice([None, None, "N", "?", "A", "--", ""])
             yield {"desc": desc, "samples": samples, "iam": iam, "alleles": alleles,
-                   "order": order, "mds": mds}
+                   "order": order, "mds": mds, "sform": rng.randrange(8) if rng.random() < 0.6 else 0,
+                   "aform": "list" if rng.random() < 0.06 else "tuple"}
 
     def observe(self, case):
         import logging
@@ -358,17 +431,29 @@ class Decode(Family):
         except Exception as e:
             obs["mut_parent_computed"] = exc_obs(e)
         try:
-            m = ts.genotype_matrix(samples=case["samples"], isolated_as_missing=case["iam"],
+            m = ts.genotype_matrix(samples=mk_samples(case["samples"], case.get("sform", 0)),
+                                   isolated_as_missing=case["iam"],
                                    alleles=None if case["alleles"] is None else tuple(case["alleles"]))
             obs["matrix"] = {"ok": [[int(g) for g in r] for r in m]}
         except Exception as e:
             obs["matrix"] = exc_obs(e)
         try:
-            v = tskit.Variant(ts, samples=case["samples"], isolated_as_missing=case["iam"],
-                              alleles=None if case["alleles"] is None else tuple(case["alleles"]))
+            v = tskit.Variant(ts, samples=mk_samples(case["samples"], case.get("sform", 0)),
+                              isolated_as_missing=case["iam"],
+                              alleles=mk_alleles(case["alleles"], case.get("aform", "tuple")))
         except Exception as e:
             obs["init"] = exc_obs(e)
-            return obs
+            if case.get("aform") == "list" and case["alleles"] is not None and obs["init"]["exc"] == "TypeError":
+                # documented: alleles must be a tuple; fall back to the tuple and go on
+                obs["alleles_list"] = "TypeError"
+                try:
+                    v = tskit.Variant(ts, samples=mk_samples(case["samples"], case.get("sform", 0)),
+                                      isolated_as_missing=case["iam"], alleles=tuple(case["alleles"]))
+                except Exception as e2:
+                    obs["init"] = exc_obs(e2)
+                    return obs
+            else:
+                return obs
         obs["init"] = None
         obs["samples"] = [int(u) for u in v.samples]
         obs["iam_prop"] = bool(v.isolated_as_missing)
@@ -470,6 +555,12 @@ class Decode(Family):
                 out.append(("matrix-vs-decode", "site %d: genotype_matrix row %r, decode %r" % (d["site"], obs["matrix"]["ok"][d["site"]], d["genotypes"])))
         for d in obs["decodes"]:
             s = d["site"]
+            if not 0 <= s < len(desc["sites"]):
+                if "err" not in d:
+                    out.append(("bad-site-accepted", "decode(%d) with %d sites" % (s, len(desc["sites"]))))
+                elif d["err"]["exc"] not in ("LibraryError", "ValueError"):
+                    out.append(("bad-site-error-class", "decode(%d): %r" % (s, d["err"])))
+                continue
             tag = "user-alleles" if ual is not None else "auto-alleles"
             states = site_states(desc, s)
             row = expected_row(desc, s, nodes, iam)
@@ -574,6 +665,8 @@ class Decode(Family):
                 continue
             seen[key] = True
             s = d["site"]
+            if not 0 <= s < len(desc["sites"]):
+                continue
             par = gen_ts.parent_at(desc, desc["sites"][s][0])
             tr = ctree(obs["trees"][str(s)])
             terms.append("check_decode %s %s %s %s %s" % (
@@ -647,6 +740,8 @@ class Decode(Family):
                 yield c
         # drop a site not decoded / drop a mutation without children
         used = set(case["order"])
+        if any(not 0 <= x < len(desc["sites"]) for x in used):
+            used = set(range(len(desc["sites"])))
         for s in range(len(desc["sites"])):
             if s not in used:
                 remap = {}
@@ -657,7 +752,7 @@ class Decode(Family):
                         k += 1
                 c = dict(case)
                 c["desc"] = drop_sites(desc, lambda i, _s, s=s: i != s)
-                c["order"] = [remap[x] for x in case["order"]]
+                c["order"] = [remap.get(x, x) for x in case["order"]]
                 yield c
         parents = {m[3] for m in desc["mutations"]}
         for j in range(len(desc["mutations"])):
@@ -753,7 +848,8 @@ class Views(Family):
                 desc["refseq"] = "".join(rng.choice("acgt") for _ in range(L + rng.choice([0, 0, 0, -1, 2])))
             yield {"desc": desc, "samples": samples, "iam": iam, "alleles": alleles,
                    "left": left, "right": right, "mdc": mdc, "ref": ref,
-                   "copy": rng.choice([None, True, False])}
+                   "copy": rng.choice([None, True, False]),
+                   "sform": rng.randrange(8) if rng.random() < 0.6 else 0}
 
     def observe(self, case):
         import numpy as np
@@ -763,11 +859,12 @@ class Views(Family):
         left = None if case["left"] is None else case["left"] * sc
         right = None if case["right"] is None else case["right"] * sc
         al = None if case["alleles"] is None else tuple(case["alleles"])
+        smp = mk_samples(case["samples"], case.get("sform", 0))
         obs = {"discrete": bool(ts.discrete_genome), "L": float(ts.sequence_length)}
 
         def variants():
             out = []
-            for v in ts.variants(samples=case["samples"], isolated_as_missing=case["iam"], alleles=al,
+            for v in ts.variants(samples=smp, isolated_as_missing=case["iam"], alleles=al,
                                  left=left, right=right, copy=case["copy"]):
                 out.append([int(v.site.id), [int(g) for g in v.genotypes], list(v.alleles),
                             bool(v.has_missing_data)])
@@ -775,26 +872,26 @@ class Views(Family):
 
         def variants_held():
             # copy=True objects must stay valid after the iteration has moved on
-            vs = list(ts.variants(samples=case["samples"], isolated_as_missing=case["iam"], alleles=al,
+            vs = list(ts.variants(samples=smp, isolated_as_missing=case["iam"], alleles=al,
                                   left=left, right=right, copy=True))
             return [[int(v.site.id), [int(g) for g in v.genotypes], list(v.alleles),
                      bool(v.has_missing_data)] for v in vs]
 
         def variants_auto():
             return [[int(v.site.id), [int(g) for g in v.genotypes], list(v.alleles), bool(v.has_missing_data)]
-                    for v in ts.variants(samples=case["samples"], isolated_as_missing=case["iam"],
+                    for v in ts.variants(samples=smp, isolated_as_missing=case["iam"],
                                          left=left, right=right)]
 
         obs["variants"] = call(variants)
         obs["variants_held"] = call(variants_held)
         obs["variants_auto"] = call(variants_auto) if al is not None else obs["variants"]
         obs["matrix"] = call(lambda: [[int(g) for g in r] for r in
-                                      ts.genotype_matrix(samples=case["samples"], isolated_as_missing=case["iam"], alleles=al)])
+                                      ts.genotype_matrix(samples=smp, isolated_as_missing=case["iam"], alleles=al)])
         obs["haplotypes"] = call(lambda: list(ts.haplotypes(
-            samples=case["samples"], isolated_as_missing=case["iam"], missing_data_character=case["mdc"],
+            samples=smp, isolated_as_missing=case["iam"], missing_data_character=case["mdc"],
             left=left, right=right)))
         obs["alignments"] = call(lambda: list(ts.alignments(
-            samples=case["samples"], reference_sequence=case["ref"], missing_data_character=case["mdc"],
+            samples=smp, reference_sequence=case["ref"], missing_data_character=case["mdc"],
             left=left, right=right)))
         return obs
 
